@@ -114,6 +114,8 @@ def work(item):
             if near_discontinuity(args):
                 st.cls("near_discontinuity_skipped")
                 continue
+            if any(a == "N" for a in args):
+                continue      # a NULL out parameter has no Java counterpart (the Java methods return all outputs)
             if any(k == "s" and (a is None or (isinstance(a, str) and any(ord(ch) > 126 or ord(ch) < 32 for ch in a))) for k, a in zip(kinds, args)) or any(a == "cNULL" for a in args):
                 continue
             plan.append((fn, kinds, args))
